@@ -554,6 +554,157 @@ impl LimitSpace {
     }
 }
 
+// ---------------------------------------------------------------------------------------
+// "Just below a limit the analyses run as usual" for call-graph *structures*: whenever the
+// library's preflight reports no exceeded limit, the interprocedural results must be there —
+// here observed through a dead store that is only dead if the callee's summary is known.
+// ---------------------------------------------------------------------------------------
+
+#[derive(Clone, Copy, Debug)]
+enum Structure {
+    Ring,
+    Chain,
+    Dense,
+    TwoRings,
+    RingWithCapture,
+}
+
+const STRUCTURES: [Structure; 5] = [Structure::Ring, Structure::Chain, Structure::Dense, Structure::TwoRings, Structure::RingWithCapture];
+
+impl Structure {
+    /// (program, expected printed numbers)
+    fn build(self, n: usize) -> (String, Vec<f64>) {
+        let mut s = String::new();
+        let guard = "if to say (q small pass 1) start return 0 end";
+        let entry;
+        match self {
+            Structure::Ring => {
+                for k in 0..n {
+                    s.push_str(&format!("do r{k}(q) start {guard} return r{}(q minus 1) end\n", (k + 1) % n));
+                }
+                entry = "r0(3)".to_string();
+            }
+            Structure::Chain => {
+                for k in 0..n {
+                    if k + 1 < n {
+                        s.push_str(&format!("do r{k}(q) start {guard} return r{}(q minus 1) end\n", k + 1));
+                    } else {
+                        s.push_str(&format!("do r{k}(q) start return 0 end\n"));
+                    }
+                }
+                entry = "r0(3)".to_string();
+            }
+            Structure::Dense => {
+                // every function mentions every earlier one (never executed: q is 0)
+                for k in 0..n {
+                    s.push_str(&format!("do r{k}(q) start if to say (q pass 0) start make t get 0\n"));
+                    for j in 0..k {
+                        s.push_str(&format!("t get t add r{j}(0)\n"));
+                    }
+                    s.push_str("return t end return 0 end\n");
+                }
+                entry = format!("r{}(0)", n - 1);
+            }
+            Structure::TwoRings => {
+                let h = n / 2 + 1;
+                for (name, m) in [("r", h), ("u", n - h + 1)] {
+                    for k in 0..m {
+                        s.push_str(&format!("do {name}{k}(q) start {guard} return {name}{}(q minus 1) end\n", (k + 1) % m));
+                    }
+                }
+                entry = "r0(3) add u0(2)".to_string();
+            }
+            Structure::RingWithCapture => {
+                // one member of the ring reads another global: that one must stay live
+                s.push_str("make seen get 40\n");
+                for k in 0..n {
+                    let extra = if k == n / 2 { " add seen times 0" } else { "" };
+                    s.push_str(&format!("do r{k}(q) start {guard} return r{}(q minus 1){extra} end\n", (k + 1) % n));
+                }
+                entry = "r0(3)".to_string();
+            }
+        }
+        // `cn get 7` is dead only if the callee is known not to read `cn`
+        s.push_str(&format!("make cn get 1\nshout(cn)\ncn get 7\nshout({entry})\ncn get 2\nshout(cn)\n"));
+        s.push_str(TAIL);
+        (s, vec![1.0, 0.0, 2.0, 8.0])
+    }
+}
+
+struct StructureSpace {
+    sizes: Vec<usize>,
+}
+
+impl Space for StructureSpace {
+    fn id(&self) -> String {
+        "call-graph-structure-x-size".into()
+    }
+    fn size(&self) -> u64 {
+        (STRUCTURES.len() * self.sizes.len()) as u64
+    }
+    fn profile(&self) -> Profile {
+        Profile::Fast
+    }
+    fn chunk(&self) -> u64 {
+        1
+    }
+    fn case_timeout_ms(&self) -> u64 {
+        1_800_000
+    }
+    fn describe(&self, i: u64) -> String {
+        let (st, n) = (STRUCTURES[i as usize / self.sizes.len()], self.sizes[i as usize % self.sizes.len()]);
+        format!("{st:?} of {n} functions; e.g. 3 functions:\n{}", st.build(3).0)
+    }
+    fn run(&self, _ctx: &mut Ctx, i: u64) -> Outcome {
+        let (st, n) = (STRUCTURES[i as usize / self.sizes.len()], self.sizes[i as usize % self.sizes.len()]);
+        let arena = Arena::new(8 << 30).expect("reserve analysis arena");
+        let frame = Arena::new(1 << 30).expect("reserve frame arena");
+        let input = format!("{st:?} of {n} functions");
+        let fail = |class: &str, detail: serde_json::Value| Outcome::bad("violation", Violation::new(class, input.clone(), detail));
+        let (src, want) = st.build(n);
+        let exceeded = match measure(&arena, &src) {
+            Ok(m) => m.exceeded,
+            Err(e) => return fail("family-program-not-accepted", json!(e)),
+        };
+        let fr = match full_run(&arena, &frame, &src) {
+            Ok(f) => f,
+            Err(p) => return fail("panic-while-running-family-program", json!(p)),
+        };
+        if !fr.accepted || !fr.ended_normally || !fr.out_ok || fr.out != want {
+            return fail("results-differ-from-closed-form", json!({"accepted": fr.accepted, "printed": fr.out, "expected": want}));
+        }
+        let resource_msg = limits::AnalysisLimit { metric: "", observed: 0, limit: 0 }.message();
+        let n_resource = fr.warnings.iter().filter(|(_, m)| m == resource_msg).count();
+        let count = |e: SemanticError| fr.warnings.iter().filter(|(_, m)| m == e.as_str()).count();
+        if exceeded.is_some() {
+            if n_resource != 1 || fr.warnings.len() != 1 || fr.plan_some {
+                return fail("not-exactly-one-resource-warning-above-limit", json!({"warnings": fr.warnings.len(), "resource_warnings": n_resource, "plan": fr.plan_some}));
+            }
+            return Outcome::ok(format!("limited ({})", exceeded.unwrap().0), true);
+        }
+        if n_resource != 0 {
+            return fail("resource-warning-below-limit", json!({"warnings": fr.warnings.len()}));
+        }
+        // as usual: the tail's two warnings, the summary-dependent dead store, and pruning of both
+        if count(SemanticError::UnusedVariable) != 1 || count(SemanticError::UnreachableCode) != 1 || count(SemanticError::UnusedAssignment) != 2 {
+            return fail(
+                "analysis-warnings-missing-below-limit",
+                json!({"unused_variable": count(SemanticError::UnusedVariable), "unreachable_code": count(SemanticError::UnreachableCode),
+                       "unused_assignment(the tail's unused declaration + the dead store across the call)": count(SemanticError::UnusedAssignment), "expected": [1, 1, 2]}),
+            );
+        }
+        if !fr.plan_some || fr.skipped < 2 {
+            // the unused declaration and the dead store
+            return fail("no-pruning-below-limit", json!({"plan": fr.plan_some, "skipped": fr.skipped}));
+        }
+        Outcome::ok("analysed as usual", true)
+    }
+}
+
 pub fn spaces(tier: Tier) -> Vec<Box<dyn Space>> {
-    vec![Box::new(LimitSpace { thorough: tier == Tier::Thorough })]
+    let t = tier == Tier::Thorough;
+    vec![
+        Box::new(LimitSpace { thorough: t }),
+        Box::new(StructureSpace { sizes: if t { vec![2, 3, 10, 50, 100, 200, 300, 360, 420, 500, 600, 800] } else { vec![2, 3, 10, 50, 150, 250, 340, 400] } }),
+    ]
 }
